@@ -94,6 +94,7 @@ struct Script {
     drop_at: Option<usize>, // consumer takes that many messages, then drops the receiver
     sched: Vec<u64>,       // schedule of the model run
     attr_seed: u64,        // attribution of the reference outputs to inputs for the table stages
+    hops: Vec<Vec<u8>>,    // per stage: pacing before its j-th send (cyclic); empty = none
 }
 
 fn pace(code: u8) {
@@ -293,13 +294,21 @@ fn run_real(p: &Pipeline, s: &Script, hang_timeout: Duration) -> RunOut {
         let (tx, rx_next) = sync_channel::<DltMessage>(s.caps[i + 1]);
         let rx = std::mem::replace(&mut rx_prev, rx_next);
         let tap = taps[i].clone();
+        let hop: Vec<u8> = s.hops.get(i).cloned().unwrap_or_default();
         let g = DoneGuard(done_tx.clone(), i + 1);
         let fh = full_hits.clone();
         // the outflow closure of convert.rs `&|m| sync_sender_send_delay_if_full(m, &tx)` plus a tap
         macro_rules! outflow {
             () => {
                 &|m: DltMessage| {
-                    tap.lock().unwrap().push(m.index);
+                    let nth = {
+                        let mut t = tap.lock().unwrap();
+                        t.push(m.index);
+                        t.len() - 1
+                    };
+                    if !hop.is_empty() {
+                        pace(hop[nth % hop.len()]);
+                    }
                     let t = Instant::now();
                     let r = sync_sender_send_delay_if_full(m, &tx);
                     if t.elapsed() >= Duration::from_millis(9) {
@@ -671,7 +680,17 @@ fn gen_script(rng: &mut Rng, p: &Pipeline, vector: usize, ref_out: usize) -> Scr
         None
     };
     let sched = (0..48).map(|_| rng.below(997)).collect();
-    Script { caps, prod, cons, drop_at, sched, attr_seed: rng.next() }
+    // pacing inside the pipeline: before the j-th send of a stage (mostly nothing / yields, a few short stalls)
+    let hops = (0..p.stages.len())
+        .map(|_| {
+            if rng.chance(1, 2) {
+                vec![]
+            } else {
+                (0..rng.range(1, 12)).map(|_| *rng.pick(&[0u8, 0, 0, 0, 1, 1, 2, 3])).collect()
+            }
+        })
+        .collect();
+    Script { caps, prod, cons, drop_at, sched, attr_seed: rng.next(), hops }
 }
 
 // ------------------------------------------------------------------ abstract case for the model
@@ -723,7 +742,7 @@ fn coq_case(p: &Pipeline, s: &Script, r: &RunOut) -> String {
 
 fn case_json(p: &Pipeline, s: &Script) -> Value {
     json!({"msgs": p.msgs, "stages": p.stages.iter().map(|s| s.to_json()).collect::<Vec<_>>(),
-           "caps": s.caps, "prod": s.prod, "cons": s.cons, "drop_at": s.drop_at, "sched": s.sched, "attr_seed": s.attr_seed.to_string()})
+           "caps": s.caps, "prod": s.prod, "cons": s.cons, "drop_at": s.drop_at, "sched": s.sched, "attr_seed": s.attr_seed.to_string(), "hops": s.hops})
 }
 fn case_from_json(v: &Value) -> (Pipeline, Script) {
     let msgs: Vec<MsgSpec> = serde_json::from_value(v["msgs"].clone()).unwrap();
@@ -735,12 +754,13 @@ fn case_from_json(v: &Value) -> (Pipeline, Script) {
         drop_at: serde_json::from_value(v["drop_at"].clone()).unwrap(),
         sched: serde_json::from_value(v["sched"].clone()).unwrap(),
         attr_seed: v["attr_seed"].as_str().unwrap().parse().unwrap(),
+        hops: serde_json::from_value(v["hops"].clone()).unwrap_or_default(),
     };
     (Pipeline { msgs, stages }, s)
 }
 
 fn reference_script(p: &Pipeline) -> Script {
-    Script { caps: vec![LARGE; p.stages.len() + 1], prod: vec![], cons: vec![], drop_at: None, sched: vec![], attr_seed: 0 }
+    Script { caps: vec![LARGE; p.stages.len() + 1], prod: vec![], cons: vec![], drop_at: None, sched: vec![], attr_seed: 0, hops: vec![] }
 }
 
 struct Done {
